@@ -15,4 +15,5 @@ for c in "$@"; do cp /tmp/seed_evidence_save/$c.json /verif/evidence/$c.json 2>/
 cd /verif && python3 tools/gen_consts.py coq/gen/Consts.v > /dev/null 2>&1; python3 tools/gen_synccell.py coq/gen/SyncCellProg.v > /dev/null 2>&1
 python3 tools/gen_pool.py coq/gen/PoolProg.v > /dev/null 2>&1; python3 tools/gen_chan.py coq/gen/ChanProg.v > /dev/null 2>&1
 python3 tools/gen_strun.py coq/gen/StRunProg.v > /dev/null 2>&1; python3 tools/gen_slot.py coq/gen/SlotProg.v > /dev/null 2>&1
+python3 tools/gen_seqfut.py coq/gen/SeqFutProg.v > /dev/null 2>&1
 exit 0
